@@ -782,3 +782,62 @@ def check_C17(tier, seed):
     rep.evaluations += ncalls
     rep.notes['lockstep_calls'] = ncalls
     return rep.finish()
+
+
+def check_C05(tier, seed):
+    from . import regex_timing as rt
+    quick = tier == 'quick'
+    rep = Report('C05', tier, seed, level='exploration')
+    rep.notes['rule'] = ('corpus of adversarial (pattern, subject, flags) triples - nested / overlapping quantifiers, alternations, counted '
+                         'repeats, back-references, lookarounds, possessive/atomic groups, fuzzy and reverse matching, deep nesting, long '
+                         'alternations / literals / patterns, subjects up to 10^5 characters, invalid patterns, random regexes over a small '
+                         'grammar - for each of match / match_groups / match_all, executed through eval in an isolated worker under a '
+                         'kill-after watchdog; every recorded call validated by TLC against SQRegexTimer (RegexBegin: every entry into the '
+                         'engine carries a timeout in (0, 50 ms]; RegexEnd: duration within 500 ms + 5 us/char, outcome a value or an '
+                         'ordinary Exception); duration failures must reproduce in 3 of 3 re-measurements in a quiet single worker; '
+                         'non-trivial = the engine was entered (distinct (function, family, sizes))')
+    probes = rt.corpus(tier, seed)
+    results = rt.run_probes(probes, nrunners=4)
+    verdicts, res = rt.validate(list(zip(probes, results)))
+    rep.add_tlc(res, 'SQRegexTimer on %d recorded calls' % len(probes))
+    if res.rc != 0 or len(verdicts) != len(probes):
+        rep.machinery.append('SQRegexTimer run failed (%d verdicts for %d calls): %s' % (len(verdicts), len(probes), res.out[-800:]))
+        return rep.finish()
+    findings = [f for f in engine.load_known_findings() if f.get('property') == 'C05' and f.get('status') == 'open']
+    slow = []
+    for p, r in zip(probes, results):
+        rep.evaluations += 1
+        if r['engine']:
+            rep.distinct.add((p['fn'], p['family'], len(p['pattern'] or ''), len(p['subject'] or '')))
+        v = verdicts[p['id']]
+        if len(rep.samples) < 6 and r['engine']:
+            rep.samples.append({'fn': p['fn'], 'family': p['family'], 'pattern': (p['pattern'] or '')[:40], 'subject_len': len(p['subject'] or ''),
+                                'flags': p['flags'], 'ms': round(r['ms'], 1), 'outcome': r['outcome'], 'engine': r['engine'][:2], 'verdict': v})
+        if v == 'accepted':
+            rep.traces += 1
+        elif 'duration' in v or r.get('killed'):
+            slow.append((p, r, v))
+        else:
+            rep.violation('%s(%r..., pattern %r...): %s; engine entries %s' % (p['fn'], (p['subject'] or '')[:20], (p['pattern'] or '')[:40], v, r['engine'][:3]),
+                          {'probe': {k: (x if not isinstance(x, str) else x[:200]) for k, x in p.items()}, 'observed': r, 'clause': v})
+    # duration failures: re-measure quietly; classify against the known finding (cause-keyed)
+    for p, r, v in slow[:40]:
+        again = rt.remeasure(p, 3)
+        env_ms = 500 + (len(p['pattern'] or '') + len(p['subject'] or '')) / 200.0
+        if not all(a.get('killed') or a['ms'] > env_ms for a in again):
+            rep.notes['timing_noise_discarded'] = rep.notes.get('timing_noise_discarded', 0) + 1
+            continue
+        run = rt.periodic_run(p['pattern'])
+        known = [f for f in findings if f.get('cause') == 'periodic-literal' and run >= f.get('min_run', 400) and len(p['subject'] or '') >= run // 2]
+        if known:
+            rep.known.append((known[0]['deviation'], known[0]['what']))
+            rep.notes.setdefault('known_finding_witnesses', []).append({'fn': p['fn'], 'pattern_len': len(p['pattern']), 'periodic_run': run,
+                                                                        'ms': [round(a['ms']) for a in again]})
+        else:
+            rep.violation('%s: duration %s ms outside the envelope %.0f ms (3 of 3 re-measurements): family %s, pattern %r..., subject length %d' %
+                          (p['fn'], [round(a['ms']) for a in again], env_ms, p['family'], (p['pattern'] or '')[:40], len(p['subject'] or '')),
+                          {'probe': {k: (x if not isinstance(x, str) else x[:300]) for k, x in p.items()}, 'remeasured': again})
+    # which table entries reach the regex engine at all?
+    rep.assumptions += ['wall-clock measurements in this sandbox; constants chosen with wide margins (500 ms + 5 us per character)',
+                        'that the third-party engine honours its timeout for ALL patterns is explored on the corpus, not proved']
+    return rep.finish()
